@@ -1,13 +1,13 @@
-// implrun for C09 (ring part): stdin cases -> stdout observations, all logic is in the in-package file
-// injected by overlay (harness/repl/inj/zz_verif_repl.go).
+// implrun for C09: all logic is in the in-package files injected by overlay (harness/repl/inj/):
+//   implrun [ring]        ring part: stdin cases -> stdout observations (zz_verif_repl.go)
+//   implrun stress ...    publication order of concurrent Aof.PushLock calls on a real node (zz_verif_repl_node.go)
+//   implrun transfer ...  the real sendFiles on a rotated log, every boundary (zz_verif_repl_node.go)
 package main
 
 import (
-	"os"
-
 	"github.com/snower/slock/server"
 )
 
 func main() {
-	server.VerifReplRing(os.Stdin, os.Stdout)
+	server.VerifReplMain()
 }
